@@ -98,6 +98,7 @@ class Source:
                     k_t = normalize.inline_new_temps(self.tree, localnames.table().get(rel, {}))
                     k_t += normalize.rename_dead_aliases(self.tree, localnames.table().get(rel, {}))
                     k_t += normalize.inline_comprehension_temps(self.tree, localnames.table().get(rel, {}))
+                    k_t += normalize.fold_conditional_appends(self.tree, localnames.table().get(rel, {}))
                     n_t += k_t
                     if not k_t:
                         break
